@@ -10,6 +10,15 @@ Sub-checks
                     /simulation at generated offsets: every response is a complete snapshot equal to the state
                     at a step boundary recorded by the run's own heartbeat, continues bit-for-bit, and the served
                     run ends in the same state as an unserved twin.
+  server_sync       the server oracle on short runs of deferred-synchronisation integrators carrying 1000-3000 test
+                    particles, with a client requesting continuously: synchronisation on the exit path of
+                    integrate() and serialisation in the server thread are long enough to overlap.
+  server_fd         the server thread must not touch descriptors of other threads: a client (100-300 requests of
+                    several kinds) and a watcher thread own descriptors while the simulation integrates; an EBADF
+                    on one of them means another thread closed it.
+
+Reference runs "alone" happen in fresh processes (class Pristine), so hidden process-wide state cannot be shared
+between the reference and the run under test.
 """
 import math
 import os
@@ -155,6 +164,19 @@ def build_sim(prog):
     if sy.get("swarm"):
         sim.collision = "direct"
         sim.collision_resolve = "hardsphere"
+    if prog.get("cloud"):
+        # many massless bodies on circular orbits outside the planets (built from three numbers, so the case stays
+        # small): they make synchronisation and serialisation take long enough to overlap
+        c = prog["cloud"]
+        nact = sim.N
+        M = sum(p.m for p in sim.particles)
+        a0 = 1.5 * max(math.sqrt(p.x ** 2 + p.y ** 2 + p.z ** 2) for p in sim.particles)
+        for i in range(c["n"]):
+            a = a0 * (1.0 + c["da"] * i)
+            v = math.sqrt(sim.G * M / a)
+            ph = c["dph"] * i
+            sim.add(m=0.0, x=a * math.cos(ph), y=a * math.sin(ph), vx=-v * math.sin(ph), vy=v * math.cos(ph))
+        sim.N_active = nact
     sim.dt = prog["dt_frac"] * sy["P_min"]
     if prog.get("megno"):
         sim.init_megno(seed=prog["rand_seed"] % 1000003)
@@ -178,6 +200,14 @@ def prog_iter(prog, tag, scratch, out):
                     yield "step"
                 continue
             elif kind == "integrate":
+                budget = [0]
+
+                def limiter(simp, sim=sim, budget=budget):
+                    # adaptive integrators may collapse their step (not this property's business): bounded work
+                    budget[0] += 1
+                    if budget[0] > 400:
+                        sim.stop()
+                sim.heartbeat = limiter
                 sim.integrate(sim.t + (o[1] - 0.5) * sim.dt, exact_finish_time=0)
             elif kind == "copy":
                 sim = sim.copy()
@@ -591,21 +621,32 @@ def run_server(case, ctx):
     from ..oracles import sa_format
     warnings.simplefilter("ignore")
     quiet_c_stdout()
+    perturb(0xA5)
     os.chdir(ctx.scratch)
     if not os.path.exists("rebound.html"):      # otherwise the server thread shells out to curl
         open("rebound.html", "w").write("<html></html>")
-    prog = {"system": case["system"], "cfg": case["cfg"], "dt_frac": case["dt_frac"], "rand_seed": case["rand_seed"]}
+    prog = {"system": case["system"], "cfg": case["cfg"], "dt_frac": case["dt_frac"], "rand_seed": case["rand_seed"],
+            "cloud": case.get("cloud")}
     eft = case["eft"]
-    fixed = case["cfg"].get("fixed_step", True)
 
     def tmax_of(sim):
         return sim.t + (case["nsteps"] - 0.5) * sim.dt if eft == 0 else sim.t + (case["nsteps"] - 0.4) * sim.dt
 
-    # unserved twin: no server, no heartbeat
+    # unserved twin: no server; its heartbeat only counts steps (work bound for collapsing adaptive steps)
     U = build_sim(prog)
-    U.usleep = case["usleep"]
     tmax = tmax_of(U)
+    ucount = [0]
+
+    def ulimit(simp):
+        ucount[0] += 1
+        if ucount[0] > 4 * case["nsteps"] + 50:
+            U.stop()
+    U.heartbeat = ulimit            # counts steps only; never touches the state unless the step size collapses
     U.integrate(tmax, exact_finish_time=eft)
+    if ucount[0] > 4 * case["nsteps"] + 50:
+        ctx.skip("adaptive step size collapsed in the unserved twin (run does not end in bounded work)")
+        return
+    U.usleep = case["usleep"]
     mU, pU = rb.smap(U), rb.pstate(U)
 
     S_ = build_sim(prog)
@@ -648,6 +689,11 @@ def run_server(case, ctx):
     def client():
         t0 = time.monotonic()
         acc = 0.0
+        if case.get("hammer"):
+            time.sleep(0.0005 * case["hammer"])
+            while not stop.is_set() and len(responses) < 400:
+                get()
+            return
         for off, burst in case["requests"]:
             acc += off
             while (time.monotonic() - t0) * 1000.0 < acc and not stop.is_set():
@@ -658,7 +704,11 @@ def run_server(case, ctx):
     th = threading.Thread(target=client)
     th.start()
     try:
+        if case.get("hammer"):
+            time.sleep(0.004)       # let the first requests arrive before the short run starts
         S_.integrate(tmax, exact_finish_time=eft)
+        if case.get("hammer"):
+            time.sleep(0.002)
     finally:
         stop.set()
         th.join()
@@ -674,9 +724,24 @@ def run_server(case, ctx):
     if pS != pU or rb.dbits(S_.t) != rb.dbits(U.t):
         raise Violation("serving requests altered the trajectory: final particles of the served run differ from the "
                         "unserved twin (%d responses)" % len([r for r in responses if r]))
-    a, b = dict(mS), dict(mU)
-    if a != b:
-        raise Violation("serving requests altered the final state", diff=sa_format.map_diff(b, a, names)[:8])
+    if mS != mU:
+        # two different objects: members the library never assigns (e.g. the masses of test particles in the
+        # barycentric coordinate cache) hold heap bytes; a second unserved twin under another heap fill finds them
+        perturb(0x5A)
+        try:
+            U2 = build_sim(prog)
+            U2.heartbeat = ulimit
+            U2.integrate(tmax, exact_finish_time=eft)
+            U2.usleep = case["usleep"]
+            mU2 = rb.smap(U2)
+        finally:
+            perturb(0xA5)
+        bad, nmask = masked_equal(mU, mS, mU2)
+        if bad:
+            raise Violation("serving requests altered the final state",
+                            diff=[d for d in sa_format.map_diff(mU, mS, names) if d["field"] in
+                                  [names.get(k, str(k)) for k in bad]][:8])
+        ctx.cls("uninitialised_bytes_masked")
 
     def strip(m):
         m = dict(m)
@@ -729,9 +794,6 @@ def run_server(case, ctx):
             C = rebound.Simulation(log[key])        # control: the run's own record of that boundary
             C.usleep = 0
             R.usleep = 0
-            if strip(m).get(F_DT) is None:
-                pass
-            # dt / status may have been touched by the exit check: take them from the response itself
             try:
                 C.integrate(tmax, exact_finish_time=eft)
                 R.integrate(tmax, exact_finish_time=eft)
@@ -747,6 +809,24 @@ def run_server(case, ctx):
     ctx.cls("family:" + case["cfg"]["integrator"])
     ctx.cls("eft%d" % eft)
     ctx.nontrivial(inside >= 1)
+
+
+def _unsafe(cfg):
+    """deferred synchronisation: synchronize() on the exit path of integrate() has real work to do"""
+    fam = cfg["family"]
+    sets = [x for x in cfg["set"] if not x[0].endswith("safe_mode") and not x[0].endswith("keep_unsynchronized")]
+    return dict(cfg, set=sets + [["ri_%s.safe_mode" % fam, 0]])
+
+
+server_sync_case = st.fixed_dictionaries({
+    "system": S.hierarchical_system(nmin=2, nmax=4, move_to_com=True),
+    "cfg": S.integrator_config(["whfast", "mercurius", "saba", "eos"]).map(_unsafe),
+    "dt_frac": st.sampled_from([0.05, 0.02]), "rand_seed": st.just(1),
+    "cloud": st.fixed_dictionaries({"n": st.integers(1000, 3000), "da": st.sampled_from([0.002, 0.001]),
+                                    "dph": S.floats(0.05, 0.5)}),
+    "nsteps": st.integers(2, 5), "eft": st.sampled_from([0, 1]), "usleep": st.sampled_from([0, 100]),
+    "hammer": st.integers(0, 4), "requests": st.just([]),
+}).map(lambda c: dict(c, hammer=c["hammer"] + 1))
 
 
 server_fd_case = st.fixed_dictionaries({
@@ -844,6 +924,7 @@ def subs(tier):
             shards_thorough=8),
         Sub("server", run_server, strategy=server_case, quick=320, thorough=6000, shards_quick=8),
         Sub("server_fd", run_server_fd, strategy=server_fd_case, quick=64, thorough=1200, shards_quick=8),
+        Sub("server_sync", run_server, strategy=server_sync_case, quick=48, thorough=1000, shards_quick=8),
     ]
     if build.has_avx512():
         out += [
